@@ -53,7 +53,8 @@ func (world) Describe() super.Description {
 	}
 }
 
-var posRe = regexp.MustCompile(`sim[0-9]?\.yang:(\d+):(\d+)`)
+// input names: mostly plain, sometimes with characters a file name may well contain
+var nameChoices = []string{"sim.yang", "sim.yang", "sim.yang", "dir/sub dir/sim.yang", "50%.yang", "a%sb%d.yang", "módulo.yang", "C:\\yang\\sim.yang", "sim@2020-01-01.yang", "x"}
 
 type input struct {
 	name, text string
@@ -187,6 +188,10 @@ func judge(in input, o outcome) *super.Violation {
 		return nil
 	}
 	msg := o.err.Error()
+	posRe, rerr := regexp.Compile(regexp.QuoteMeta(in.name) + `:(\d+):(\d+)`)
+	if rerr != nil {
+		return nil
+	}
 	ms := posRe.FindAllStringSubmatch(msg, -1)
 	if len(ms) == 0 {
 		if !strings.Contains(msg, in.name) {
@@ -435,6 +440,11 @@ func (w world) RunCase(t *tape.Tape, st *super.Stats) *super.Violation {
 		inc("base:raw")
 	}
 	withCard := t.Rare(4)
+	name := "sim.yang"
+	if t.Rare(5) {
+		name = nameChoices[t.Draw(len(nameChoices))]
+		inc("reach:unusual_input_name")
+	}
 	var ins []input
 	shared := false
 	op := t.Pick(3, 4, 3, 2, 1, 1, 1)
@@ -443,7 +453,7 @@ func (w world) RunCase(t *tape.Tape, st *super.Stats) *super.Violation {
 	}
 	switch op {
 	case 0: // no fault
-		ins = []input{{"sim.yang", base}}
+		ins = []input{{name, base}}
 		inc("op:none")
 	case 1: // truncation at every byte (window if long)
 		lo, hi := 0, len(base)
@@ -452,7 +462,7 @@ func (w world) RunCase(t *tape.Tape, st *super.Stats) *super.Violation {
 			hi = lo + 1500
 		}
 		for i := lo; i <= hi && i <= len(base); i++ {
-			ins = append(ins, input{"sim.yang", base[:i]})
+			ins = append(ins, input{name, base[:i]})
 		}
 		if st != nil {
 			st.Add("fault:truncate", int64(len(ins)))
@@ -485,7 +495,7 @@ func (w world) RunCase(t *tape.Tape, st *super.Stats) *super.Violation {
 				}
 			}
 		}
-		ins = []input{{"sim.yang", string(b)}}
+		ins = []input{{name, string(b)}}
 	case 3: // token operators
 		tk := tokens(base)
 		s := base
@@ -509,10 +519,10 @@ func (w world) RunCase(t *tape.Tape, st *super.Stats) *super.Violation {
 				inc("fault:token-swap")
 			}
 		}
-		ins = []input{{"sim.yang", s}}
+		ins = []input{{name, s}}
 	case 4: // trailing garbage: parser stops consuming while the lexer still produces
 		g := []string{" trailing;", "}", " leaf x { type string; }", "\n\nmodule b { namespace \"urn:b\"; prefix b; }", " \"open", " /* open", "x"}[t.Draw(7)]
-		ins = []input{{"sim.yang", base + g}}
+		ins = []input{{name, base + g}}
 		inc("fault:trailing-garbage")
 	case 5: // an early statement fails its check in a long text
 		i := strings.Index(base, "{")
@@ -521,7 +531,7 @@ func (w world) RunCase(t *tape.Tape, st *super.Stats) *super.Violation {
 			bad := []string{" namespace \"urn:dup\"; namespace \"urn:dup2\";", " yang-version 7;", " prefix \"bad prefix\";", " revision notadate;", " leaf l { }", " nosuchkeyword x;", " import { }"}[t.Draw(7)]
 			s = base[:i+1] + bad + base[i+1:]
 		}
-		ins = []input{{"sim.yang", s}}
+		ins = []input{{name, s}}
 		inc("fault:early-check-failure")
 	case 6: // sequence sharing interners, an early member damaged
 		shared = true
